@@ -84,7 +84,7 @@ pub fn run(ctx: &mut Ctx) {
         extras: true,
         all_widths: true,
     };
-    ctx.meta("rule", "cases: (tree, per-tag write options, presentation); trees = forests over V (macro-derived) up to the node bound + deep spines + size-boundary documents (payload / content 124..128, 16379..16384 bytes; thorough adds 2^21-1, 2^21) + raw tags with well-formed unknown ids of 1, 2 and 8 bytes, and forests over a runtime specification whose masters nest 8 deep with ids of every byte length 1..8; options = every known/unknown choice x deviations among size width 1..8 and payload classes (0, boundary integers, NaN patterns, empty/127/128-byte strings and binaries); presentations = Start/End and every Full antichain. The real TagWriter is driven; if every call is accepted the output is read by the real strict TagIterator. Oracle: items == flatten(tree) exactly, no error, then None. Excluded (inherent EBML ambiguity, as in C07): a global element directly after an unknown-size master. Non-trivial: documents with a master and a non-default option or Full presentation.");
+    ctx.meta("rule", "cases: (tree, per-tag write options, presentation); trees = forests over V (macro-derived) up to the node bound + deep spines + size-boundary documents (payload / content 124..128, 16379..16384 bytes; thorough adds 2^21-1, 2^21) + raw tags with well-formed unknown ids of 1, 2 and 8 bytes, documents longer than the reader's 64 KiB buffer with 9..16-byte headers at every alignment around the buffer boundary, and forests over a runtime specification whose masters nest 8 deep with ids of every byte length 1..8; options = every known/unknown choice x deviations among size width 1..8 and payload classes (0, boundary integers, NaN patterns, empty/127/128-byte strings and binaries); presentations = Start/End and every Full antichain. The real TagWriter is driven; if every call is accepted the output is read by the real strict TagIterator. Oracle: items == flatten(tree) exactly, no error, then None. Excluded (inherent EBML ambiguity, as in C07): a global element directly after an unknown-size master. Non-trivial: documents with a master and a non-default option or Full presentation.");
     ctx.meta("bounds", &format!("forests <= {} elements over V, <= {} deviation (thorough: additionally <= 2 deviations on forests <= 5 elements); chain specification forests <= {} elements + the full 8-deep spine x 256 unknown-size subsets", p.max_nodes, p.devs, ctx.tier.pick(6, 7)));
     ctx.meta("assumptions", "payload lengths 2^(7k)-1 for k >= 4 are covered only at codec level (C15) || calls the writer rejects are not judged here (C09/C11 demand acceptance)");
     for c in ["accepted_by_writer", "chain_spec_docs", "size_boundary_docs", "buffer_boundary_docs"] {
